@@ -17,7 +17,7 @@ STRENGTHENED = {
 res = json.load(open(OUT)) if os.path.exists(OUT) else {}
 for f in sorted(glob.glob('/tmp/seedrun-*.out'), key=os.path.getmtime):
     for line in open(f):
-        m = re.match(r'CHECK (C\d+) (m\d) rc=(\d+) (\d+) violations; (.*)', line)
+        m = re.match(r'CHECK (C\d+) ((?:r\d)?m\d) rc=(\d+) (\d+) violations; (.*)', line)
         if m:
             prop, mk, rc, nv, tail = m.groups()
             name = '%s-%s' % (prop, mk)
